@@ -1,4 +1,4 @@
-(* C02_Proofs.v — invariants of the fine-grained semaphore model (C02_Model.v), for every
+(* C02_Base.v — plumbing, tactics, lock invariant of of the fine-grained semaphore model (C02_Model.v), for every
    interleaving (induction over `reachable`), any number of threads and vCPUs. *)
 From Coq Require Import ZArith List Bool Arith Lia.
 From PV Require Import Base.U64 C02.C02_Model.
@@ -360,8 +360,8 @@ Ltac start_cases H :=
   | context [match ?x with _ => _ end] => destruct x eqn:?
   end; try discriminate; inv_some H.
 
-Ltac unf := unfold tr_return, pi_return, scan_next, setpc in *.
-Ltac st := autorewrite with st in *.
+Ltac unf := unfold tr_return, pi_return, scan_next, setpc.
+Ltac st := autorewrite with st.
 
 (* the pc of a thread, and what a modth does to it *)
 Definition pcof (s : state) (t : nat) : pc := t_pc (getth s t).
@@ -393,7 +393,7 @@ Global Hint Rewrite pcof_set_now pcof_set_count pcof_set_splock pcof_set_qlock p
 
 Ltac brk := repeat match goal with |- context [match ?x with _ => _ end] => destruct x eqn:? end.
 Ltac thsimp := cbn [t_vcpu t_state t_lock t_inq t_err t_ts t_slq t_semcnt t_errno t_pc t_ret t_pend
-                    set_pc set_errno set_err set_pend set_lock set_state set_inq set_ts set_slq set_semcnt set_ret] in *.
+                    set_pc set_errno set_err set_pend set_lock set_state set_inq set_ts set_slq set_semcnt set_ret].
 Ltac pcs :=
   repeat first [ rewrite pcof_modth_other by auto
                | rewrite pcof_modth_keep by (intros; reflexivity)
@@ -506,337 +506,5 @@ Proof.
   - destruct (sched_effect _ _ _ H Logic.I) as (Hn&Hp&Hs&_). eapply sp_inv_frame; eauto.
   - simpl in H. destruct (vstep_effect _ _ _ H) as (Hn&Hp&Hs&_). eapply sp_inv_frame; eauto.
   - destruct (sched_effect _ _ _ H Logic.I) as (Hn&Hp&Hs&_). eapply sp_inv_frame; eauto.
-Qed.
-
-(* ---------------------------------------------------------------------------------------- *)
-(* sums over the thread table *)
-Fixpoint tsum (F : thread -> Z) (l : list thread) : Z :=
-  match l with [] => 0 | th :: r => F th + tsum F r end.
-Lemma tsum_upd F l i v : (i < length l)%nat -> tsum F (upd_nth l i v) = tsum F l - F (nth i l thread0) + F v.
-Proof. revert i; induction l; destruct i; simpl; intros; try lia. rewrite IHl by lia. lia. Qed.
-Definition ssum (F : thread -> Z) (s : state) : Z := tsum F (threads s).
-Lemma ssum_modth F s x f : (x < nthreads s)%nat -> ssum F (modth s x f) = ssum F s - F (getth s x) + F (f (getth s x)).
-Proof. intros. unfold ssum, modth, setth; simpl. rewrite tsum_upd by auto. reflexivity. Qed.
-Lemma ssum_modth_keep F s x f : (forall th, F (f th) = F th) -> ssum F (modth s x f) = ssum F s.
-Proof.
-  intros H. destruct (lt_dec x (nthreads s)).
-  - rewrite ssum_modth by auto. rewrite H. lia.
-  - unfold ssum, modth, setth; simpl. rewrite upd_nth_oob; auto. unfold nthreads in *; lia.
-Qed.
-Lemma ssum_nonneg F s : (forall th, 0 <= F th) -> 0 <= ssum F s.
-Proof. intros H. unfold ssum. induction (threads s); simpl; [lia|]. specialize (H a). lia. Qed.
-Lemma ssum_set_now F s v : ssum F (set_now s v) = ssum F s. Proof. reflexivity. Qed.
-Lemma ssum_set_count F s v : ssum F (set_count s v) = ssum F s. Proof. reflexivity. Qed.
-Lemma ssum_set_splock F s v : ssum F (set_splock s v) = ssum F s. Proof. reflexivity. Qed.
-Lemma ssum_set_qlock F s v : ssum F (set_qlock s v) = ssum F s. Proof. reflexivity. Qed.
-Lemma ssum_set_queue F s v : ssum F (set_queue s v) = ssum F s. Proof. reflexivity. Qed.
-Lemma ssum_set_vcpus F s v : ssum F (set_vcpus s v) = ssum F s. Proof. reflexivity. Qed.
-Lemma ssum_set_gsig F s v : ssum F (set_gsig s v) = ssum F s. Proof. reflexivity. Qed.
-Lemma ssum_set_gret0 F s v : ssum F (set_gret0 s v) = ssum F s. Proof. reflexivity. Qed.
-Lemma ssum_set_grets F s v : ssum F (set_grets s v) = ssum F s. Proof. reflexivity. Qed.
-Lemma ssum_set_gcrash F s v : ssum F (set_gcrash s v) = ssum F s. Proof. reflexivity. Qed.
-Lemma ssum_set_grefail F s v : ssum F (set_grefail s v) = ssum F s. Proof. reflexivity. Qed.
-Lemma ssum_set_gwakes F s v : ssum F (set_gwakes s v) = ssum F s. Proof. reflexivity. Qed.
-Lemma ssum_setv F s v p : ssum F (setv s v p) = ssum F s. Proof. reflexivity. Qed.
-Global Hint Rewrite ssum_set_now ssum_set_count ssum_set_splock ssum_set_qlock ssum_set_queue ssum_set_vcpus ssum_set_gsig ssum_set_gret0 ssum_set_grets ssum_set_gcrash ssum_set_grefail ssum_set_gwakes ssum_setv : st.
-
-(* ---------------------------------------------------------------------------------------- *)
-(* local well-formedness of the program counters (facts each thread knows about its locals) *)
-Definition caller_args (k : caller) : option wargs := match k with CWaitFail a _ _ => Some a | _ => None end.
-Definition pik_caller (kk : pikont) : option caller :=
-  match kk with KHead k _ | KScan k _ _ => Some k | KIntr => None end.
-Definition pc_caller (p : pc) : option caller :=
-  match p with
-  | TRHead k _ | TRLockX k _ _ | TRRecheck k _ _ | TRUnlockRetry k _ _ | TRCmp k _ _ | TRUnlockBreak k _ _
-  | TRUnlockLoop k _ _ | TRTail k _ | SCQLock k _ | SCTLock k _ _ | SCCmp k _ _ | SCTUnlock k _ _ | SCQUnlock k => Some k
-  | PIQLock kk _ | PIDeq kk _ | PIState kk _ => pik_caller kk
-  | _ => None
-  end.
-Definition pc_args (p : pc) : option wargs :=
-  match p with
-  | WLock1 a | WLoad a | WCas a _ | WQLock a | WTLock a | WEnq a | WQUnlock a | WDefer a | WAsleep a
-  | WLock2 a _ | WFailLoad a _ | WRet a _ _ => Some a
-  | _ => match pc_caller p with Some k => caller_args k | None => None end
-  end.
-Definition args_ok (a : wargs) : Prop := 0 < w_c a < W64.
-Definition pc_wf (p : pc) : Prop :=
-  (forall a, pc_args p = Some a -> args_ok a) /\
-  match p with
-  | WCas a mc => w_c a <= mc
-  | WLock2 _ r => r = 0 \/ r = -1
-  | WFailLoad _ r => r = -1
-  | WRet a r took => (r = 0 /\ took = w_c a) \/ (r = -1 /\ took = 0)
-  | SLock n | SAdd n _ => 0 < n < W64
-  | _ => match pc_caller p with Some (CWaitFail _ r _) => r = -1 | _ => True end
-  end.
-
-Ltac zb := repeat match goal with
-  | H : (_ <? _) = true |- _ => apply Z.ltb_lt in H
-  | H : (_ <? _) = false |- _ => apply Z.ltb_ge in H
-  | H : (_ <=? _) = true |- _ => apply Z.leb_le in H
-  | H : (_ <=? _) = false |- _ => apply Z.leb_gt in H
-  | H : (_ =? _) = true |- _ => apply Z.eqb_eq in H
-  | H : (_ =? _) = false |- _ => apply Z.eqb_neq in H
-  | H : negb _ = false |- _ => apply negb_false_iff in H
-  | H : negb _ = true |- _ => apply negb_true_iff in H
-  | H : _ && _ = true |- _ => apply andb_true_iff in H; destruct H
-  end.
-
-Lemma tstep_pcwf s t s' : tstep s t = Some s' -> pc_wf (pcof s t) -> pc_wf (pcof s' t).
-Proof.
-  intros H. tstep_cases H; apply ltb_lt in Hlt; norm; unfold pcof; try rewrite Hpc; auto;
-    unfold pc_wf; cbn [pc_args pc_caller pik_caller caller_args]; intros [W1 W2]; (split; [first [exact W1 | (intros ? E; discriminate E) | (intros ? E; inv_some E; apply W1; reflexivity)]|]); zb; auto; try lia.
-  all: try (destruct W2 as [W2|W2]; lia).
-Qed.
-
-Lemma start_pcwf s t o s' : start s t o = Some s' -> pc_wf (pcof s' t).
-Proof.
-  intros H. start_cases H; apply ltb_lt in Hlt; norm; unfold pcof; try rewrite Hpc;
-    unfold pc_wf, args_ok; cbn [pc_args pc_caller pik_caller caller_args]; (split; [intros a' E; try discriminate; inv_some E; cbn [w_c]|]); zb; auto; try lia.
-Qed.
-
-Definition pcwf_inv (s : state) : Prop := forall t, (t < nthreads s)%nat -> pc_wf (pcof s t).
-
-Lemma pcwf_inv_step s l s' : pcwf_inv s -> step s l = Some s' -> pcwf_inv s'.
-Proof.
-  intros Iv H t' Hl. destruct l.
-  - simpl in H. destruct (start_effect _ _ _ _ H) as (Ht&Hn&Hi&Hh&Fr&_). rewrite Hn in Hl.
-    destruct (Nat.eq_dec t' t) as [->|N]; [eapply start_pcwf; eauto|rewrite Fr; auto].
-  - simpl in H. rewrite (tstep_nthreads _ _ _ H) in Hl.
-    destruct (Nat.eq_dec t' t) as [->|N]; [eapply tstep_pcwf; eauto|erewrite tstep_pc_frame; eauto].
-  - destruct (sched_effect _ _ _ H Logic.I) as (Hn&Hp&_). rewrite Hn in Hl. rewrite Hp; auto.
-  - destruct (sched_effect _ _ _ H Logic.I) as (Hn&Hp&_). rewrite Hn in Hl. rewrite Hp; auto.
-  - destruct (sched_effect _ _ _ H Logic.I) as (Hn&Hp&_). rewrite Hn in Hl. rewrite Hp; auto.
-  - simpl in H. destruct (vstep_effect _ _ _ H) as (Hn&Hp&_). rewrite Hn in Hl. rewrite Hp; auto.
-  - destruct (sched_effect _ _ _ H Logic.I) as (Hn&Hp&_). rewrite Hn in Hl. rewrite Hp; auto.
-Qed.
-
-(* ---------------------------------------------------------------------------------------- *)
-(* T1: conservation of tokens *)
-(* tokens already subtracted by a wait call that has not returned yet (it will return 0) *)
-Definition infl (th : thread) : Z := match t_pc th with WRet _ 0 took => took | _ => 0 end.
-Definition inflight (s : state) : Z := ssum infl s.
-(* what the counter would be without the 2^64 wrap *)
-Definition tokens (s : state) : Z := g_init s + g_sig s - g_ret0 s - inflight s.
-
-Ltac sums F :=
-  repeat first [ rewrite ssum_modth_keep by (intros; reflexivity)
-               | rewrite ssum_modth by (autorewrite with st; auto)
-               | rewrite (getth_modth_frame F) by (intros; reflexivity)
-               | progress (autorewrite with st) ].
-
-Lemma infl_pc th p : infl (set_pc th p) = match p with WRet _ 0 took => took | _ => 0 end.
-Proof. reflexivity. Qed.
-
-Lemma infl_at s t p : t_pc (getth s t) = p -> infl (getth s t) = match p with WRet _ 0 took => took | _ => 0 end.
-Proof. intros <-. reflexivity. Qed.
-
-Lemma tstep_ledger s t s' : tstep s t = Some s' -> pc_wf (pcof s t) ->
-  (m_count s' = m_count s /\ tokens s' = tokens s) \/
-  (exists n ep, pcof s t = SAdd n ep /\ m_count s' = wrap (m_count s + n) /\ tokens s' = tokens s + n) \/
-  (exists a, pcof s t = WCas a (m_count s) /\ m_count s' = m_count s - w_c a /\ tokens s' = tokens s - w_c a).
-Proof.
-  intros H. unfold pcof, tokens, inflight.
-  tstep_cases H; apply ltb_lt in Hlt; intros [W1 W2]; unf; brk; sums infl; rewrite ?infl_pc, ?(infl_at _ _ _ Hpc);
-    try (left; split; [reflexivity|lia]).
-  all: zb; subst.
-  all: try (left; split; [reflexivity|]; destruct ret; try lia; try congruence; destruct W2 as [[? ?]|[? ?]]; try lia; try congruence; fail).
-  all: try (left; split; [reflexivity|]; lia).
-  - right; right. exists a. repeat split; auto. lia.
-  - right; left. exists n, ep. repeat split; auto. lia.
-Qed.
-
-Lemma other_ledger s l s' : step s l = Some s' -> match l with LAdv _ => False | _ => True end ->
-  m_count s' = m_count s /\ tokens s' = tokens s.
-Proof.
-  intros H L. unfold tokens, inflight. destruct l; try contradiction; simpl in H.
-  - start_cases H; apply ltb_lt in Hlt; unf; sums infl; rewrite ?infl_pc, ?(infl_at _ _ _ Hpc); split; auto; lia.
-  - repeat match type of H with
-    | None = Some _ => discriminate
-    | context [match ?x with _ => _ end] => destruct x eqn:?
-    end; try discriminate; inv_some H; sums infl; auto.
-  - repeat match type of H with
-    | None = Some _ => discriminate
-    | context [match ?x with _ => _ end] => destruct x eqn:?
-    end; try discriminate; inv_some H; sums infl; auto.
-  - repeat match type of H with
-    | None = Some _ => discriminate
-    | context [match ?x with _ => _ end] => destruct x eqn:?
-    end; try discriminate; inv_some H; sums infl; auto.
-  - vstep_cases H; sums infl; auto.
-  - destruct (0 <=? d); inv_some H; sums infl; auto.
-Qed.
-
-Definition cons_inv (s : state) : Prop :=
-  pcwf_inv s /\ 0 <= m_count s < W64 /\ m_count s mod W64 = tokens s mod W64 /\ m_count s <= tokens s.
-
-Lemma cons_inv_step s l s' : cons_inv s -> step s l = Some s' -> cons_inv s'.
-Proof.
-  intros (Iw&Ir&Im&Il) H. split; [eapply pcwf_inv_step; eauto|].
-  destruct l; try (destruct (other_ledger _ _ _ H Logic.I) as [E1 E2]; rewrite E1, E2; auto).
-  simpl in H. pose proof (tstep_sp _ _ _ H) as [Ht _].
-  destruct (tstep_ledger _ _ _ H (Iw _ Ht)) as [[E1 E2]|[(n&ep&Ep&E1&E2)|(a&Ep&E1&E2)]]; rewrite E1, E2.
-  - auto.
-  - pose proof (Iw _ Ht) as [_ W2]. rewrite Ep in W2. unfold wrap. pose proof W64_pos.
-    repeat split.
-    + apply Z.mod_pos_bound; lia. + apply Z.mod_pos_bound; lia.
-    + rewrite Z.mod_mod by lia. rewrite Z.add_mod by lia. rewrite Im. rewrite <- Z.add_mod by lia. reflexivity.
-    + transitivity (m_count s + n); [apply Z.mod_le; lia|lia].
-  - pose proof (Iw _ Ht) as [W1 W2]. rewrite Ep in W1, W2. specialize (W1 a eq_refl). unfold args_ok in W1. pose proof W64_pos.
-    repeat split; try lia.
-    rewrite Zminus_mod. rewrite Im. rewrite <- Zminus_mod. reflexivity.
-Qed.
-
-Lemma reachable_inv (P : state -> Prop) s0 : P s0 -> (forall s l s', P s -> step s l = Some s' -> P s') ->
-  forall s, reachable s0 s -> P s.
-Proof. intros H0 Hs s R. induction R; eauto. Qed.
-
-Lemma init_nthreads c o ths nv : nthreads (init c o ths nv) = length ths.
-Proof. unfold nthreads, init; simpl. apply map_length. Qed.
-Lemma init_pcof c o ths nv t : pcof (init c o ths nv) t = Idle.
-Proof.
-  unfold pcof, getth, init; simpl. revert t; induction ths; destruct t; simpl; auto.
-Qed.
-Lemma init_ssum F c o ths nv : (forall vc, F (mk_thread vc Running) = 0) -> ssum F (init c o ths nv) = 0.
-Proof. intros H. unfold ssum, init; simpl. induction ths; simpl; auto. rewrite H, IHths. reflexivity. Qed.
-
-Lemma cons_inv_init c o ths nv : 0 <= c < W64 -> cons_inv (init c o ths nv).
-Proof.
-  intros Hc. unfold cons_inv. split.
-  - intros t _. rewrite init_pcof. split; [discriminate|exact Logic.I].
-  - unfold tokens, inflight. rewrite init_ssum by reflexivity. simpl. repeat split; try lia. f_equal; lia.
-Qed.
-
-Lemma sp_inv_init c o ths nv : sp_inv (init c o ths nv).
-Proof.
-  split.
-  - intros t _ H. rewrite init_pcof in H. discriminate.
-  - simpl. discriminate.
-Qed.
-
-Lemma tstep_gret0 s t s' : tstep s t = Some s' -> pc_wf (pcof s t) -> g_ret0 s <= g_ret0 s'.
-Proof.
-  intros H. unfold pcof. tstep_cases H; intros [W1 W2]; rewrite ?Hpc in *; unf; brk; st; try lia.
-  all: specialize (W1 a eq_refl); unfold args_ok in W1; destruct W2 as [[? ?]|[? ?]]; lia.
-Qed.
-Lemma gret0_mono s l s' : pcwf_inv s -> step s l = Some s' -> g_ret0 s <= g_ret0 s'.
-Proof.
-  intros Iw H. destruct l.
-  - simpl in H. destruct (start_effect _ _ _ _ H) as (_&_&_&_&_&_&_&_&_&_&_&E&_). lia.
-  - simpl in H. pose proof (tstep_sp _ _ _ H) as [Ht _]. eapply tstep_gret0; eauto.
-  - destruct (sched_effect _ _ _ H Logic.I) as (_&_&_&_&_&E&_). lia.
-  - destruct (sched_effect _ _ _ H Logic.I) as (_&_&_&_&_&E&_). lia.
-  - destruct (sched_effect _ _ _ H Logic.I) as (_&_&_&_&_&E&_). lia.
-  - simpl in H. destruct (vstep_effect _ _ _ H) as (_&_&_&_&_&E&_). lia.
-  - destruct (sched_effect _ _ _ H Logic.I) as (_&_&_&_&_&E&_). lia.
-Qed.
-
-Lemma ssum_nonneg_idx F s : (forall t, (t < nthreads s)%nat -> 0 <= F (getth s t)) -> 0 <= ssum F s.
-Proof.
-  unfold ssum, nthreads, getth. induction (threads s) as [|th r IH]; simpl; intros H; [lia|].
-  pose proof (H O ltac:(lia)) as H0. simpl in H0.
-  assert (0 <= tsum F r). { apply IH. intros t Ht. apply (H (S t)). lia. }
-  lia.
-Qed.
-
-Lemma inflight_nonneg s : pcwf_inv s -> 0 <= inflight s.
-Proof.
-  intros Iw. apply ssum_nonneg_idx. intros t Ht. specialize (Iw t Ht). unfold pcof in Iw. unfold infl.
-  destruct (t_pc (getth s t)); try lia. destruct Iw as [W1 W2]. specialize (W1 a eq_refl). unfold args_ok in W1.
-  destruct ret; lia.
-Qed.
-
-(* conservation, in every reachable state, for every interleaving *)
-Lemma conservation c o ths nv s : 0 <= c < W64 -> reachable (init c o ths nv) s ->
-  (g_ret0 s + inflight s + m_count s) mod W64 = (g_init s + g_sig s) mod W64 /\
-  g_ret0 s + inflight s + m_count s <= g_init s + g_sig s /\
-  0 <= m_count s < W64 /\ 0 <= g_ret0 s /\ 0 <= inflight s /\
-  (g_init s + g_sig s < W64 -> g_ret0 s + inflight s + m_count s = g_init s + g_sig s).
-Proof.
-  intros Hc R.
-  assert (I : cons_inv s /\ 0 <= g_ret0 s).
-  { eapply (reachable_inv (fun s => cons_inv s /\ 0 <= g_ret0 s)); [| |exact R].
-    - split; [apply cons_inv_init; auto|simpl; lia].
-    - intros s1 l s2 [I1 I2] H. split; [eapply cons_inv_step; eauto|].
-      destruct I1 as (Iw&_). pose proof (gret0_mono _ _ _ Iw H). lia. }
-  destruct I as ((Iw&Ir&Im&Il)&Ig). pose proof (inflight_nonneg _ Iw) as Hi. unfold tokens in *. pose proof W64_pos.
-  assert (E : (g_ret0 s + inflight s + m_count s) mod W64 = (g_init s + g_sig s) mod W64).
-  { replace (g_init s + g_sig s) with ((g_init s + g_sig s - g_ret0 s - inflight s) + (g_ret0 s + inflight s)) by lia.
-    rewrite (Z.add_mod (g_init s + g_sig s - g_ret0 s - inflight s)) by lia. rewrite <- Im.
-    rewrite <- Z.add_mod by lia. f_equal; lia. }
-  repeat split; try lia; auto.
-  intros Hb. rewrite !Z.mod_small in E by lia. exact E.
-Qed.
-
-(* ---------------------------------------------------------------------------------------- *)
-(* T2: safe to destroy after wait.  A signal call that has acquired splock (ghost epoch `ep` =
-   number of wait returns at that moment) performs ALL its remaining accesses before any wait
-   call returns: while it is in flight, g_rets is still `ep`. *)
-Definition caller_ep (k : caller) : option nat := match k with CSignal ep => Some ep | _ => None end.
-Definition sig_ep (p : pc) : option nat :=
-  match p with
-  | SAdd _ ep | SUnlock ep => Some ep
-  | _ => match pc_caller p with Some k => caller_ep k | None => None end
-  end.
-Lemma sig_ep_holds p ep : sig_ep p = Some ep -> holds_sp p = true.
-Proof. destruct p; simpl; try discriminate; auto; destruct kk; simpl; auto; discriminate. Qed.
-
-Lemma tstep_ep s t s' : tstep s t = Some s' ->
-  (forall ep, sig_ep (pcof s' t) = Some ep -> sig_ep (pcof s t) = Some ep \/ ep = g_rets s') /\
-  (g_rets s' = g_rets s \/ exists a r k, pcof s t = WRet a r k).
-Proof.
-  intros H. tstep_cases H; apply ltb_lt in Hlt; norm; unfold pcof; rewrite ?Hpc;
-    cbn [sig_ep pc_caller pik_caller caller_ep]; (split; [intros ep0 E; try discriminate; auto; try (inv_some E; auto)|]); eauto.
-Qed.
-
-Definition ep_inv (s : state) : Prop :=
-  forall t ep, (t < nthreads s)%nat -> sig_ep (pcof s t) = Some ep -> ep = g_rets s.
-
-Lemma ep_inv_step s l s' : sp_inv s -> ep_inv s -> step s l = Some s' -> ep_inv s'.
-Proof.
-  intros [S1 S2] Iv H t' ep Hl He. destruct l.
-  - simpl in H. destruct (start_effect _ _ _ _ H) as (Ht&Hn&Hi&Hh&Fr&_&_&_&_&_&_&_&Er&_). rewrite Hn in Hl. rewrite Er.
-    destruct (Nat.eq_dec t' t) as [->|N]; [apply sig_ep_holds in He; congruence|rewrite Fr in He; eauto].
-  - simpl in H. rewrite (tstep_nthreads _ _ _ H) in Hl. pose proof (tstep_sp _ _ _ H) as [Ht _].
-    destruct (tstep_ep _ _ _ H) as [E1 E2].
-    destruct (Nat.eq_dec t' t) as [->|N].
-    + destruct (E1 _ He) as [E|E]; auto. specialize (Iv _ _ Hl E).
-      destruct E2 as [E2|(a&r&k&E2)]; [congruence|]. rewrite E2 in E. discriminate.
-    + erewrite tstep_pc_frame in He by eauto. specialize (Iv _ _ Hl He).
-      destruct E2 as [E2|(a&r&k&E2)]; [congruence|].
-      apply sig_ep_holds in He. pose proof (S1 _ Hl He) as Hx.
-      assert (Hy : holds_sp (pcof s t) = true) by (rewrite E2; reflexivity).
-      pose proof (S1 _ Ht Hy). congruence.
-  - destruct (sched_effect _ _ _ H Logic.I) as (Hn&Hp&_&_&_&_&Er&_). rewrite Hn in Hl. rewrite Hp in He. rewrite Er. eauto.
-  - destruct (sched_effect _ _ _ H Logic.I) as (Hn&Hp&_&_&_&_&Er&_). rewrite Hn in Hl. rewrite Hp in He. rewrite Er. eauto.
-  - destruct (sched_effect _ _ _ H Logic.I) as (Hn&Hp&_&_&_&_&Er&_). rewrite Hn in Hl. rewrite Hp in He. rewrite Er. eauto.
-  - simpl in H. destruct (vstep_effect _ _ _ H) as (Hn&Hp&_&_&_&_&Er&_). rewrite Hn in Hl. rewrite Hp in He. rewrite Er. eauto.
-  - destruct (sched_effect _ _ _ H Logic.I) as (Hn&Hp&_&_&_&_&Er&_). rewrite Hn in Hl. rewrite Hp in He. rewrite Er. eauto.
-Qed.
-
-Lemma sp_inv_reachable c o ths nv s : reachable (init c o ths nv) s -> sp_inv s.
-Proof. apply reachable_inv; [apply sp_inv_init|apply sp_inv_step]. Qed.
-
-Lemma destroy_safe c o ths nv s : reachable (init c o ths nv) s ->
-  forall t ep, (t < nthreads s)%nat -> sig_ep (pcof s t) = Some ep -> ep = g_rets s.
-Proof.
-  intros R.
-  assert (I : sp_inv s /\ ep_inv s).
-  { eapply (reachable_inv (fun s => sp_inv s /\ ep_inv s)); [| |exact R].
-    - split; [apply sp_inv_init|]. intros t ep _ E. rewrite init_pcof in E. discriminate.
-    - intros s1 l s2 [I1 I2] H. split; [eapply sp_inv_step; eauto|eapply ep_inv_step; eauto]. }
-  exact (proj2 I).
-Qed.
-
-(* at the moment a wait call returns (it is at its final unlock), no signal call is inside *)
-Lemma destroy_safe_at_return c o ths nv s : reachable (init c o ths nv) s ->
-  forall t a r k, (t < nthreads s)%nat -> pcof s t = WRet a r k ->
-  forall t', (t' < nthreads s)%nat -> sig_ep (pcof s t') = None.
-Proof.
-  intros R t a r k Ht Hp t' Ht'. destruct (sp_inv_reachable _ _ _ _ _ R) as [S1 _].
-  destruct (sig_ep (pcof s t')) eqn:E0; auto. pose proof (sig_ep_holds _ _ E0) as E.
-  assert (Hy : holds_sp (pcof s t) = true) by (rewrite Hp; reflexivity).
-  pose proof (S1 _ Ht Hy). pose proof (S1 _ Ht' E). assert (t = t') by congruence. subst.
-  rewrite Hp in E0. simpl in E0. discriminate.
 Qed.
 
